@@ -409,8 +409,16 @@ def build(scico, case, t=None, shape=None, info=None):
                     res = o / c
                 except TypeError:
                     res = TypeError
-            # `c * L` / `L / c` must return a new loss and leave `L` as it was
+            # `c * L` / `L / c` must return a new loss and leave `L` as it was - also after `set_scale` on the product
+            # (history: a second product is formed, rescaled in place, and the operand is evaluated again)
             if s0 is not None and res is not TypeError and k in ("mul", "div"):
+                try:
+                    res2 = (c * o if t.get("side", 0) == 0 else o * c) if k == "mul" else o / c
+                    res2.set_scale(3.0 * float(s0) + 1.0)
+                    if res2 is o:
+                        pass  # aliased: `o` has just been rescaled; detected below through o.scale / the probe value
+                except Exception:  # noqa: BLE001
+                    pass
                 after = None
                 if probe is not None:
                     try:
@@ -421,7 +429,12 @@ def build(scico, case, t=None, shape=None, info=None):
                 if res is o or o.scale != s0 or moved:
                     info.alias.append({"node": k, "c": c, "scale_before": float(s0), "scale_after": float(o.scale),
                                        "same_object": res is o, "x": xpj if probe is not None else None,
-                                       "L(x) before": probe, "L(x) after": after})
+                                       "L(x) before": probe, "L(x) after": after,
+                                       "history": "P = c*L (or L/c); P.set_scale(3*s+1); L(x) evaluated again"})
+                    try:
+                        o.set_scale(s0)  # keep the rest of the case meaningful
+                    except Exception:  # noqa: BLE001
+                        pass
     elif k == "sum":
         a, b = sub(t["f"]), sub(t["g"])
         res = TypeError if (a is TypeError or b is TypeError) else a + b
@@ -663,3 +676,58 @@ def tree_sig(t):
     if k == "loss":
         return "Lo" + ("A" if t.get("A") is not None else "") + "(" + ("-" if t.get("f") is None else tree_sig(t["f"])) + ")"
     return ("ss" if k == "setscale" else k[0]) + "(" + tree_sig(t["f"]) + ")"
+
+
+# --------------------------------------------------------------------------
+# unit factors: `1 * L`, `L * 1.0`, `L / 1` ... must be independent copies (history: rescale the product, re-evaluate L)
+
+
+def unit_factor_failures(scico, rng, reps=1):
+    """for every loss class x every way of writing a unit factor: P = <form>(L); P.set_scale(c); then L(x) must be what it
+    was, P(x) must be (c / s) * L(x), and P must not be L.  Yields (description, failure | None)."""
+    import scico.functional as F
+    import scico.numpy as snp
+    from scico import linop, loss
+
+    forms = [("1 * L", lambda L: 1 * L), ("1.0 * L", lambda L: 1.0 * L), ("L * 1", lambda L: L * 1), ("L * 1.0", lambda L: L * 1.0),
+             ("L / 1", lambda L: L / 1), ("L / 1.0", lambda L: L / 1.0)]
+    for _ in range(reps):
+        for cname in ("generic", "sql2", "sql2abs", "sql2sqabs", "poisson"):
+            for fname, form in forms:
+                n = int(rng.integers(1, 5))
+                y = np.abs(common.dyadic(rng, (n,), bits=2, scale=3.0)) + 0.25
+                x = np.abs(common.dyadic(rng, (n,), bits=2, scale=3.0)) + 0.5
+                s0 = pos_dyadic(rng)
+                w = rng.integers(1, 5, size=n).astype(np.float64) / 2
+                W = linop.Diagonal(snp.array(w), input_dtype=np.float64)
+                yj, xj = snp.array(y), snp.array(x)
+                if cname == "generic":
+                    L = loss.Loss(y=yj, f=F.L1Norm(), scale=s0)
+                elif cname == "sql2":
+                    L = loss.SquaredL2Loss(y=yj, scale=s0, W=W)
+                elif cname == "sql2abs":
+                    L = loss.SquaredL2AbsLoss(y=yj, scale=s0, W=W)
+                elif cname == "sql2sqabs":
+                    L = loss.SquaredL2SquaredAbsLoss(y=yj, scale=s0, W=W)
+                else:
+                    L = loss.PoissonLoss(y=yj, scale=s0)
+                c = pos_dyadic(rng) + 4.0  # different from every s0
+                before = float(L(xj))
+                P = form(L)
+                first = float(P(xj))
+                P.set_scale(c)
+                after = float(L(xj))
+                pval = float(P(xj))
+                desc = {"class": cname, "form": fname, "scale": s0, "set_scale": c, "x": x.tolist(), "y": y.tolist()}
+                fail = None
+                if not common.close(first, before, k=64, rtol=1e-9):
+                    fail = {"what": f"({fname})(x) differs from L(x)", "L(x)": before, "product(x)": first}
+                elif not common.close(after, before, k=64, rtol=1e-9):
+                    fail = {"what": f"P = {fname}; P.set_scale({c}) changed L: L(x) was {before}, is now {after}", "same object": P is L}
+                elif not common.close(pval, before * c / s0, k=64, rtol=1e-9):
+                    fail = {"what": f"P = {fname}; P.set_scale({c}); P(x) is not (c/scale) L(x)", "P(x)": pval, "expected": before * c / s0}
+                elif P is L:
+                    fail = {"what": f"{fname} returns L itself"}
+                if fail is not None:
+                    fail.update(desc)
+                yield desc, fail
